@@ -520,7 +520,88 @@ def build_case(seg, rec, root):
     return coq, bm, pid
 
 
+SELFTEST_LOG = """\
+100 execve("/x/test", ["test"], 0x7ffd /* 10 vars */) = 0
+100 clone(child_stack=0xc000, flags=CLONE_VM|CLONE_FS|CLONE_FILES|CLONE_SIGHAND|CLONE_THREAD|CLONE_SYSVSEM|CLONE_SETTLS, tls=0xc0) = 101
+100 clone(child_stack=0xc000, flags=CLONE_VM|CLONE_FS|CLONE_FILES|CLONE_SIGHAND|CLONE_THREAD|CLONE_SYSVSEM|CLONE_SETTLS, tls=0xc0) = 102
+100 unlinkat(AT_FDCWD, "/r/VERIF_MARK/begin-1", 0) = -1 ENOENT (No such file or directory)
+101 openat(AT_FDCWD, "/r/d/.tmpA", O_RDWR|O_CREAT|O_EXCL|O_CLOEXEC, 0600) = 6
+102 openat(AT_FDCWD, "/r/d/.tmpB", O_RDWR|O_CREAT|O_EXCL|O_CLOEXEC, 0600 <unfinished ...>
+101 write(6, "aa\\naa", 5 <unfinished ...>
+102 <... openat resumed>)             = 7
+101 <... write resumed>)              = 5
+102 write(7, "bbbbbb", 6)             = 3
+102 write(7, "bbb", 3)                = -1 EFBIG (File too large)
+102 --- SIGXFSZ {si_signo=SIGXFSZ, si_code=SI_USER, si_pid=100, si_uid=0} ---
+101 fsync(6)                          = 0
+101 close(6 <unfinished ...>
+100 openat(AT_FDCWD, "/r/d/dst", O_RDONLY|O_CLOEXEC) = 6
+101 <... close resumed>)              = 0
+100 close(6)                          = 0
+101 renameat(AT_FDCWD, "/r/d/.tmpA", AT_FDCWD, "/r/d/dst") = 0
+102 close(7)                          = 0
+102 unlinkat(AT_FDCWD, "/r/d/.tmpB", 0) = 0
+100 clone(child_stack=NULL, flags=CLONE_VM|CLONE_VFORK|SIGCHLD <unfinished ...>
+200 close(6)                          = 0
+200 openat(AT_FDCWD, "/r/d/dst", O_WRONLY|O_TRUNC) = 3
+200 execve("/bin/true", ["true"], 0x7ffd /* 10 vars */) = 0
+100 <... clone resumed>)              = 200
+100 unlinkat(AT_FDCWD, "/r/VERIF_MARK/end-1", 0) = -1 ENOENT (No such file or directory)
+101 openat(AT_FDCWD, "/r/d/after", O_WRONLY|O_CREAT|O_TRUNC, 0644) = 8
+"""
+
+
+def selftest():
+    """The parser on a constructed log: calls of two threads interleaved with
+    unfinished/resumed pairs, a descriptor number handed out again before the
+    close that released it is reported as finished, a short write followed by
+    EFBIG, a forked child with a descriptor table of its own."""
+    import tempfile
+    with tempfile.NamedTemporaryFile("w", suffix=".trace", delete=False) as f:
+        f.write(SELFTEST_LOG)
+        name = f.name
+    try:
+        segs = parse(name, "/r")
+    finally:
+        os.unlink(name)
+    want = [("O", 6, "/r/d/.tmpA", True, True, False, True, False),
+            ("O", 7, "/r/d/.tmpB", True, True, False, True, False),
+            ("W", 6, 5, b"aa\naa"),
+            ("W", 7, 3, b"bbb"),
+            ("S", 6), ("C", 6),
+            ("R", "/r/d/.tmpA", "/r/d/dst"),
+            ("C", 7), ("U", "/r/d/.tmpB")]
+    seg = segs.get(1)
+    errs = []
+    if seg is None or list(segs) != [1]:
+        errs.append("segments: %r" % list(segs))
+    else:
+        if seg.ops != want:
+            errs.append("operations:\n  got  %r\n  want %r" % (seg.ops, want))
+        if seg.ro_opens != 1:
+            errs.append("read-only opens dropped: %d, want 1" % seg.ro_opens)
+        if seg.tids != {101, 102}:
+            errs.append("threads: %r" % seg.tids)
+        if len(seg.unsupported) != 1 or "forked process (200)" not in seg.unsupported[0]:
+            errs.append("forked child: %r" % seg.unsupported)
+        if max_open_writers(seg.ops) != 2:
+            errs.append("max_open_writers: %d" % max_open_writers(seg.ops))
+        pv = python_verdict(seg.ops, "/r/d/dst", ["/r/d/dst"])
+        if pv is not None:
+            errs.append("verdict on the good trace: %r" % pv)
+        bad = python_verdict([("R", "/r/d/dst", "/r/d/dst.bak")] + seg.ops, "/r/d/dst", ["/r/d/dst"])
+        if not bad or "renames dst away" not in bad:
+            errs.append("verdict on rename-away: %r" % bad)
+    if errs:
+        print("c14_straceparse selftest FAILED:\n" + "\n".join(errs))
+        return 1
+    print("c14_straceparse selftest ok")
+    return 0
+
+
 def main():
+    if "--selftest" in sys.argv[1:]:
+        sys.exit(selftest())
     ap = argparse.ArgumentParser()
     for k in ("trace", "meta", "root", "out", "pkg", "seed", "tier"):
         ap.add_argument("--" + k, required=True)
